@@ -5,6 +5,7 @@
   which dispatch to it); `Model.Rec.eq` / `Rec.hashKey` mirror `__eq__` / `__hash__`.
 -/
 import IsoDT.Props.C12
+import IsoDT.Lemmas.RecShift
 
 namespace IsoDT.Props.C14
 open IsoDT IsoDT.Model IsoDT.Lemmas IsoDT.Props.C12
@@ -150,5 +151,460 @@ example : (⟨some 1, some ⟨.cal 2002 5 4, 23, 0, 0, ⟨0, 0⟩⟩, none, some
     none, 4⟩ : Rec).shift .greg (.units 0 0 0 1 0 0) =
     some ⟨some 1, some ⟨.cal 2002 5 5, 0, 0, 0, ⟨0, 0⟩⟩, none, some ⟨.cal 2002 5 5, 0, 0, 0, ⟨0, 0⟩⟩,
     none, 4⟩ := by decide +kernel
+
+/-! ## Shifting in the remaining notations (exact interval, exact shift of either sign)
+
+  In each theorem `r` is what the constructor builds, `r'` what `r + x` builds.  Besides the
+  stored fields, the iterated points are related in two ways: both iterations are arithmetic
+  series (`SeriesOK`) whose first instants differ by `x`'s length, and pointwise — whenever the
+  `k`-th iterated point of `r` is `p`, the `k`-th iterated point of `r'` exists and is a valid
+  point exactly `x.exactSeconds m` seconds from `p`, in `p`'s representation and offset. -/
+
+/-- **Shifting an unbounded start/duration recurrence (`R/start/d`, exact interval) by an exact
+    `x`**: same (absent) repetitions, same interval, same notation, start moved by `x`; the first
+    `fuel` points are the original first `fuel` points each moved by exactly `x`. -/
+theorem C14_shift_start_duration_unbounded (m : Mode) (s : TP) (d x : Dur) (hs : s.Valid m)
+    (hex : d.isExact = true) (hpos : 0 < d.exactSeconds m) (hx : x.isExact = true) (fuel : Nat) :
+    ∃ r r' s', mkRec m none (some s) (some d) none = some r ∧
+      addDur m s x = some s' ∧ s'.inst m = s.inst m + x.exactSeconds m ∧
+      r.shift m x = some r' ∧ r.fmt = 3 ∧ r'.fmt = 3 ∧ r.reps = none ∧ r'.reps = none ∧
+      r.dur = some d ∧ r'.dur = some d ∧ r.start = some s ∧ r'.start = some s' ∧
+      (iter m r fuel).length = fuel ∧ (iter m r' fuel).length = fuel ∧
+      SeriesOK m s.date.rep s.tz (iter m r fuel) (s.inst m) (d.exactSeconds m) ∧
+      SeriesOK m s.date.rep s.tz (iter m r' fuel) (s.inst m + x.exactSeconds m) (d.exactSeconds m) ∧
+      (∀ (k : Nat) (p : TP), (iter m r fuel)[k]? = some p →
+        ∃ p', (iter m r' fuel)[k]? = some p' ∧ p'.inst m = p.inst m + x.exactSeconds m ∧
+          p.Valid m ∧ p'.Valid m ∧ p'.date.rep = p.date.rep ∧ p'.tz = p.tz) := by
+  obtain ⟨r, hr, hlen, hser⟩ := C12_start_duration_unbounded m s d hs hex hpos fuel
+  have hr0 := mkRec_fmt3_unbounded m s d hex hpos
+  rw [hr] at hr0
+  have hre : r = ⟨none, some s, some d, none, none, 3⟩ := by simpa using hr0
+  obtain ⟨s', hs', g⟩ := addDur_exact m s x hs hx
+  obtain ⟨r', hr', hlen', hser'⟩ := C12_start_duration_unbounded m s' d g.strict.1 hex hpos fuel
+  have hr1 := mkRec_fmt3_unbounded m s' d hex hpos
+  rw [hr'] at hr1
+  have hre' : r' = ⟨none, some s', some d, none, none, 3⟩ := by simpa using hr1
+  rw [g.rep, g.tz, g.inst] at hser'
+  have hpw := series_shift_get? m _ _ _ _ _ _ _ hser hser' (by omega)
+  subst hre hre'
+  refine ⟨_, _, s', hr, hs', g.inst, ?_, rfl, rfl, rfl, rfl, rfl, rfl, rfl, rfl, hlen, hlen', hser, hser', hpw⟩
+  rw [shift_fmt3_eq m _ s s' d x _ _ hs', hr']
+
+example : (⟨.cal 2002 5 4, 23, 0, 0, ⟨0, 0⟩⟩ : TP).Valid .greg ∧ (Dur.units 0 0 0 1 0 0).isExact = true ∧
+    0 < (Dur.units 0 0 0 1 0 0).exactSeconds .greg ∧ (Dur.units 0 0 0 (-3) 0 0).isExact = true := by
+  decide
+example : (mkRec .greg none (some ⟨.cal 2002 5 4, 23, 0, 0, ⟨0, 0⟩⟩) (some (.units 0 0 0 1 0 0)) none).bind
+    (fun r => (r.shift .greg (.units 0 0 0 (-3) 0 0)).map fun r' => (iter .greg r 3, iter .greg r' 3)) =
+    some ([⟨.cal 2002 5 4, 23, 0, 0, ⟨0, 0⟩⟩, ⟨.cal 2002 5 5, 0, 0, 0, ⟨0, 0⟩⟩, ⟨.cal 2002 5 5, 1, 0, 0, ⟨0, 0⟩⟩],
+      [⟨.cal 2002 5 4, 20, 0, 0, ⟨0, 0⟩⟩, ⟨.cal 2002 5 4, 21, 0, 0, ⟨0, 0⟩⟩, ⟨.cal 2002 5 4, 22, 0, 0, ⟨0, 0⟩⟩]) := by
+  decide +kernel
+
+/-- **Shifting a duration/end recurrence (`Rn/d/end`, `n ≥ 2`, exact interval) by an exact `x`**:
+    same repetitions, same interval, same notation, end moved by `x`; the `n` points are the
+    original `n` points each moved by exactly `x`. -/
+theorem C14_shift_duration_end (m : Mode) (n : Nat) (e : TP) (d x : Dur) (hn : 2 ≤ n) (he : e.Valid m)
+    (hex : d.isExact = true) (hpos : 0 < d.exactSeconds m) (hx : x.isExact = true)
+    (fuel : Nat) (hf : n ≤ fuel) :
+    ∃ r r' e', mkRec m (some (n : Int)) none (some d) (some e) = some r ∧
+      addDur m e x = some e' ∧ e'.inst m = e.inst m + x.exactSeconds m ∧
+      r.shift m x = some r' ∧ r.fmt = 4 ∧ r'.fmt = 4 ∧ r.reps = some (n : Int) ∧ r'.reps = some (n : Int) ∧
+      r.dur = some d ∧ r'.dur = some d ∧ r.end_ = some e ∧ r'.end_ = some e' ∧
+      (iter m r fuel).length = n ∧ (iter m r' fuel).length = n ∧
+      SeriesOK m e.date.rep e.tz (iter m r fuel)
+        (e.inst m - d.exactSeconds m * ((n : Int) - 1)) (d.exactSeconds m) ∧
+      SeriesOK m e.date.rep e.tz (iter m r' fuel)
+        (e.inst m - d.exactSeconds m * ((n : Int) - 1) + x.exactSeconds m) (d.exactSeconds m) ∧
+      (∀ (k : Nat) (p : TP), (iter m r fuel)[k]? = some p →
+        ∃ p', (iter m r' fuel)[k]? = some p' ∧ p'.inst m = p.inst m + x.exactSeconds m ∧
+          p.Valid m ∧ p'.Valid m ∧ p'.date.rep = p.date.rep ∧ p'.tz = p.tz) := by
+  obtain ⟨r, hr, hlen, hser⟩ := C12_duration_end_bounded m n e d hn he hex hpos fuel hf
+  obtain ⟨s0, hr0, _⟩ := mkRec_fmt4_bounded m n e d (by omega) he hex hpos
+  rw [hr] at hr0
+  have hre : r = ⟨some (n : Int), some s0, some d, some e, none, 4⟩ := by simpa using hr0
+  obtain ⟨e', he', g⟩ := addDur_exact m e x he hx
+  obtain ⟨r', hr', hlen', hser'⟩ := C12_duration_end_bounded m n e' d hn g.strict.1 hex hpos fuel hf
+  obtain ⟨s1, hr1, _⟩ := mkRec_fmt4_bounded m n e' d (by omega) g.strict.1 hex hpos
+  rw [hr'] at hr1
+  have hre' : r' = ⟨some (n : Int), some s1, some d, some e', none, 4⟩ := by simpa using hr1
+  rw [g.rep, g.tz, g.inst] at hser'
+  have e1 : e.inst m + x.exactSeconds m - d.exactSeconds m * ((n : Int) - 1) =
+      e.inst m - d.exactSeconds m * ((n : Int) - 1) + x.exactSeconds m := by omega
+  rw [e1] at hser'
+  have hpw := series_shift_get? m _ _ _ _ _ _ _ hser hser' (by omega)
+  subst hre hre'
+  refine ⟨_, _, e', hr, he', g.inst, ?_, rfl, rfl, rfl, rfl, rfl, rfl, rfl, rfl, hlen, hlen', hser, hser', hpw⟩
+  rw [shift_fmt4_eq m _ _ _ e e' d x he', hr']
+
+example : (2 : Nat) ≤ 3 ∧ (⟨.week 2004 31 2, 23, 59, 0, ⟨5, 30⟩⟩ : TP).Valid .greg ∧
+    (Dur.weeks 2).isExact = true ∧ 0 < (Dur.weeks 2).exactSeconds .greg ∧
+    (Dur.units 0 0 1 0 0 30).isExact = true := by decide
+example : (mkRec .greg (some 3) none (some (.weeks 2)) (some ⟨.week 2004 31 2, 23, 59, 0, ⟨5, 30⟩⟩)).bind
+    (fun r => (r.shift .greg (.units 0 0 1 0 0 30)).map fun r' => (iter .greg r 5, iter .greg r' 5)) =
+    some ([⟨.week 2004 27 2, 23, 59, 0, ⟨5, 30⟩⟩, ⟨.week 2004 29 2, 23, 59, 0, ⟨5, 30⟩⟩,
+        ⟨.week 2004 31 2, 23, 59, 0, ⟨5, 30⟩⟩],
+      [⟨.week 2004 27 3, 23, 59, 30, ⟨5, 30⟩⟩, ⟨.week 2004 29 3, 23, 59, 30, ⟨5, 30⟩⟩,
+        ⟨.week 2004 31 3, 23, 59, 30, ⟨5, 30⟩⟩]) := by
+  decide +kernel
+
+/-- **Shifting an unbounded duration/end recurrence (`R/d/end`, exact interval) by an exact `x`**:
+    same (absent) repetitions, same interval, same notation, end moved by `x`; the first `fuel`
+    points (iterated backwards from the end) are the original ones each moved by exactly `x`. -/
+theorem C14_shift_duration_end_unbounded (m : Mode) (e : TP) (d x : Dur) (he : e.Valid m)
+    (hex : d.isExact = true) (hpos : 0 < d.exactSeconds m) (hx : x.isExact = true) (fuel : Nat) :
+    ∃ r r' e', mkRec m none none (some d) (some e) = some r ∧
+      addDur m e x = some e' ∧ e'.inst m = e.inst m + x.exactSeconds m ∧
+      r.shift m x = some r' ∧ r.fmt = 4 ∧ r'.fmt = 4 ∧ r.reps = none ∧ r'.reps = none ∧
+      r.dur = some d ∧ r'.dur = some d ∧ r.end_ = some e ∧ r'.end_ = some e' ∧
+      (iter m r fuel).length = fuel ∧ (iter m r' fuel).length = fuel ∧
+      SeriesOK m e.date.rep e.tz (iter m r fuel) (e.inst m) (-(d.exactSeconds m)) ∧
+      SeriesOK m e.date.rep e.tz (iter m r' fuel) (e.inst m + x.exactSeconds m) (-(d.exactSeconds m)) ∧
+      (∀ (k : Nat) (p : TP), (iter m r fuel)[k]? = some p →
+        ∃ p', (iter m r' fuel)[k]? = some p' ∧ p'.inst m = p.inst m + x.exactSeconds m ∧
+          p.Valid m ∧ p'.Valid m ∧ p'.date.rep = p.date.rep ∧ p'.tz = p.tz) := by
+  obtain ⟨r, hr, hlen, hser⟩ := C12_duration_end_unbounded m e d he hex hpos fuel
+  have hr0 := mkRec_fmt4_unbounded m e d hex hpos
+  rw [hr] at hr0
+  have hre : r = ⟨none, none, some d, some e, none, 4⟩ := by simpa using hr0
+  obtain ⟨e', he', g⟩ := addDur_exact m e x he hx
+  obtain ⟨r', hr', hlen', hser'⟩ := C12_duration_end_unbounded m e' d g.strict.1 hex hpos fuel
+  have hr1 := mkRec_fmt4_unbounded m e' d hex hpos
+  rw [hr'] at hr1
+  have hre' : r' = ⟨none, none, some d, some e', none, 4⟩ := by simpa using hr1
+  rw [g.rep, g.tz, g.inst] at hser'
+  have hpw := series_shift_get? m _ _ _ _ _ _ _ hser hser' (by omega)
+  subst hre hre'
+  refine ⟨_, _, e', hr, he', g.inst, ?_, rfl, rfl, rfl, rfl, rfl, rfl, rfl, rfl, hlen, hlen', hser, hser', hpw⟩
+  rw [shift_fmt4_eq m _ _ _ e e' d x he', hr']
+
+example : (⟨.ord 2000 366, 24, 0, 0, ⟨-3, 0⟩⟩ : TP).Valid .greg ∧
+    (Dur.units 0 0 0 0 90 0).isExact = true ∧ 0 < (Dur.units 0 0 0 0 90 0).exactSeconds .greg ∧
+    (Dur.weeks (-1)).isExact = true := by decide
+example : (mkRec .greg none none (some (.units 0 0 0 0 90 0)) (some ⟨.ord 2000 366, 24, 0, 0, ⟨-3, 0⟩⟩)).bind
+    (fun r => (r.shift .greg (.weeks (-1))).map fun r' => (iter .greg r 3, iter .greg r' 3)) =
+    some ([⟨.ord 2000 366, 24, 0, 0, ⟨-3, 0⟩⟩, ⟨.ord 2000 366, 22, 30, 0, ⟨-3, 0⟩⟩,
+        ⟨.ord 2000 366, 21, 0, 0, ⟨-3, 0⟩⟩],
+      [⟨.ord 2000 360, 0, 0, 0, ⟨-3, 0⟩⟩, ⟨.ord 2000 359, 22, 30, 0, ⟨-3, 0⟩⟩,
+        ⟨.ord 2000 359, 21, 0, 0, ⟨-3, 0⟩⟩]) := by
+  decide +kernel
+
+/-- **Shifting a start/second-point recurrence (`Rn/start/second`, `n ≥ 2`) by an exact `x`**:
+    `__add__` re-runs the constructor on the moved start and the moved second point.  The result
+    has the same repetitions and notation, an interval `d'` that is exact, of the same length as
+    the original interval `d` (so `d' == d` as durations), and its `n` points are the original `n`
+    points each moved by exactly `x`. -/
+theorem C14_shift_start_second (m : Mode) (n : Nat) (s e2 : TP) (x : Dur) (hn : 2 ≤ n)
+    (hs : s.Valid m) (he : e2.Valid m) (hlt : s.inst m < e2.inst m) (hx : x.isExact = true)
+    (fuel : Nat) (hf : n ≤ fuel) :
+    ∃ r r' s' e2' d d', mkRec m (some (n : Int)) (some s) none (some e2) = some r ∧
+      addDur m s x = some s' ∧ s'.inst m = s.inst m + x.exactSeconds m ∧
+      addDur m e2 x = some e2' ∧ e2'.inst m = e2.inst m + x.exactSeconds m ∧
+      r.shift m x = some r' ∧ r.fmt = 1 ∧ r'.fmt = 1 ∧ r.reps = some (n : Int) ∧ r'.reps = some (n : Int) ∧
+      r.dur = some d ∧ r'.dur = some d' ∧ d.isExact = true ∧ d'.isExact = true ∧
+      d.exactSeconds m = e2.inst m - s.inst m ∧ d'.exactSeconds m = d.exactSeconds m ∧
+      Dur.eq m d' d = true ∧
+      r.start = some s ∧ r.second = some e2 ∧ r'.start = some s' ∧ r'.second = some e2' ∧
+      (iter m r fuel).length = n ∧ (iter m r' fuel).length = n ∧
+      SeriesOK m s.date.rep s.tz (iter m r fuel) (s.inst m) (e2.inst m - s.inst m) ∧
+      SeriesOK m s.date.rep s.tz (iter m r' fuel) (s.inst m + x.exactSeconds m) (e2.inst m - s.inst m) ∧
+      (∀ (k : Nat) (p : TP), (iter m r fuel)[k]? = some p →
+        ∃ p', (iter m r' fuel)[k]? = some p' ∧ p'.inst m = p.inst m + x.exactSeconds m ∧
+          p.Valid m ∧ p'.Valid m ∧ p'.date.rep = p.date.rep ∧ p'.tz = p.tz) := by
+  obtain ⟨r, hr, hlen, hser⟩ := (C12_start_second m s e2 hs he hlt fuel).2 n hn hf
+  obtain ⟨d, _, dex, dsec, _, h2⟩ := mkRec_fmt1 m (some (n : Int)) s e2 hs he hlt
+    (fun k h => by cases h; omega)
+  obtain ⟨en, hr0, _⟩ := h2 n rfl
+  rw [hr] at hr0
+  have hre : r = ⟨some (n : Int), some s, some d, some en, some e2, 1⟩ := by simpa using hr0
+  obtain ⟨s', hs', g1⟩ := addDur_exact m s x hs hx
+  obtain ⟨e2', he2', g2⟩ := addDur_exact m e2 x he hx
+  have hlt' : s'.inst m < e2'.inst m := by rw [g1.inst, g2.inst]; omega
+  obtain ⟨r', hr', hlen', hser'⟩ := (C12_start_second m s' e2' g1.strict.1 g2.strict.1 hlt' fuel).2 n hn hf
+  obtain ⟨d', _, dex', dsec', _, h2'⟩ := mkRec_fmt1 m (some (n : Int)) s' e2' g1.strict.1 g2.strict.1 hlt'
+    (fun k h => by cases h; omega)
+  obtain ⟨en', hr1, _⟩ := h2' n rfl
+  rw [hr'] at hr1
+  have hre' : r' = ⟨some (n : Int), some s', some d', some en', some e2', 1⟩ := by simpa using hr1
+  have estep : e2'.inst m - s'.inst m = e2.inst m - s.inst m := by rw [g1.inst, g2.inst]; omega
+  rw [g1.rep, g1.tz, estep, g1.inst] at hser'
+  have hpw := series_shift_get? m _ _ _ _ _ _ _ hser hser' (by omega)
+  have hdd : d'.exactSeconds m = d.exactSeconds m := by omega
+  subst hre hre'
+  refine ⟨_, _, s', e2', d, d', hr, hs', g1.inst, he2', g2.inst, ?_, rfl, rfl, rfl, rfl, rfl, rfl, dex, dex',
+    dsec, hdd, dur_eq_of_exact m d' d dex' dex hdd, rfl, rfl, rfl, rfl, hlen, hlen', hser, hser', hpw⟩
+  rw [shift_fmt1_eq m _ s s' e2 e2' _ _ x hs' he2', hr']
+
+example : (2 : Nat) ≤ 4 ∧ (⟨.cal 2001 2 28, 12, 0, 0, ⟨1, 0⟩⟩ : TP).Valid .greg ∧
+    (⟨.ord 2001 60, 6, 30, 0, ⟨-2, 0⟩⟩ : TP).Valid .greg ∧
+    (⟨.cal 2001 2 28, 12, 0, 0, ⟨1, 0⟩⟩ : TP).inst .greg < (⟨.ord 2001 60, 6, 30, 0, ⟨-2, 0⟩⟩ : TP).inst .greg ∧
+    (Dur.units 0 0 (-1) 0 0 0).isExact = true := by decide +kernel
+example : (mkRec .greg (some 4) (some ⟨.cal 2001 2 28, 12, 0, 0, ⟨1, 0⟩⟩) none
+      (some ⟨.ord 2001 60, 6, 30, 0, ⟨-2, 0⟩⟩)).bind
+    (fun r => (r.shift .greg (.units 0 0 (-1) 0 0 0)).map fun r' =>
+      ((r.dur, r'.dur, r'.reps, r'.fmt), iter .greg r 9, iter .greg r' 9)) =
+    some ((some (.units 0 0 0 21 30 0), some (.units 0 0 0 21 30 0), some 4, 1),
+      [⟨.cal 2001 2 28, 12, 0, 0, ⟨1, 0⟩⟩, ⟨.cal 2001 3 1, 9, 30, 0, ⟨1, 0⟩⟩,
+        ⟨.cal 2001 3 2, 7, 0, 0, ⟨1, 0⟩⟩, ⟨.cal 2001 3 3, 4, 30, 0, ⟨1, 0⟩⟩],
+      [⟨.cal 2001 2 27, 12, 0, 0, ⟨1, 0⟩⟩, ⟨.cal 2001 2 28, 9, 30, 0, ⟨1, 0⟩⟩,
+        ⟨.cal 2001 3 1, 7, 0, 0, ⟨1, 0⟩⟩, ⟨.cal 2001 3 2, 4, 30, 0, ⟨1, 0⟩⟩]) := by
+  decide +kernel
+
+/-- **Shifting an unbounded start/second-point recurrence (`R/start/second`) by an exact `x`**:
+    same (absent) repetitions and notation, an exact interval of the same length (`d' == d`), and
+    the first `fuel` points are the original ones each moved by exactly `x`. -/
+theorem C14_shift_start_second_unbounded (m : Mode) (s e2 : TP) (x : Dur)
+    (hs : s.Valid m) (he : e2.Valid m) (hlt : s.inst m < e2.inst m) (hx : x.isExact = true)
+    (fuel : Nat) :
+    ∃ r r' s' e2' d d', mkRec m none (some s) none (some e2) = some r ∧
+      addDur m s x = some s' ∧ s'.inst m = s.inst m + x.exactSeconds m ∧
+      addDur m e2 x = some e2' ∧ e2'.inst m = e2.inst m + x.exactSeconds m ∧
+      r.shift m x = some r' ∧ r.fmt = 1 ∧ r'.fmt = 1 ∧ r.reps = none ∧ r'.reps = none ∧
+      r.dur = some d ∧ r'.dur = some d' ∧ d.isExact = true ∧ d'.isExact = true ∧
+      d.exactSeconds m = e2.inst m - s.inst m ∧ d'.exactSeconds m = d.exactSeconds m ∧
+      Dur.eq m d' d = true ∧
+      r.start = some s ∧ r.second = some e2 ∧ r'.start = some s' ∧ r'.second = some e2' ∧
+      (iter m r fuel).length = fuel ∧ (iter m r' fuel).length = fuel ∧
+      SeriesOK m s.date.rep s.tz (iter m r fuel) (s.inst m) (e2.inst m - s.inst m) ∧
+      SeriesOK m s.date.rep s.tz (iter m r' fuel) (s.inst m + x.exactSeconds m) (e2.inst m - s.inst m) ∧
+      (∀ (k : Nat) (p : TP), (iter m r fuel)[k]? = some p →
+        ∃ p', (iter m r' fuel)[k]? = some p' ∧ p'.inst m = p.inst m + x.exactSeconds m ∧
+          p.Valid m ∧ p'.Valid m ∧ p'.date.rep = p.date.rep ∧ p'.tz = p.tz) := by
+  obtain ⟨r, hr, hlen, hser⟩ := (C12_start_second m s e2 hs he hlt fuel).1
+  obtain ⟨d, _, dex, dsec, h1, _⟩ := mkRec_fmt1 m none s e2 hs he hlt (fun k h => by cases h)
+  have hr0 := h1 rfl
+  rw [hr] at hr0
+  have hre : r = ⟨none, some s, some d, none, some e2, 1⟩ := by simpa using hr0
+  obtain ⟨s', hs', g1⟩ := addDur_exact m s x hs hx
+  obtain ⟨e2', he2', g2⟩ := addDur_exact m e2 x he hx
+  have hlt' : s'.inst m < e2'.inst m := by rw [g1.inst, g2.inst]; omega
+  obtain ⟨r', hr', hlen', hser'⟩ := (C12_start_second m s' e2' g1.strict.1 g2.strict.1 hlt' fuel).1
+  obtain ⟨d', _, dex', dsec', h1', _⟩ := mkRec_fmt1 m none s' e2' g1.strict.1 g2.strict.1 hlt'
+    (fun k h => by cases h)
+  have hr1 := h1' rfl
+  rw [hr'] at hr1
+  have hre' : r' = ⟨none, some s', some d', none, some e2', 1⟩ := by simpa using hr1
+  have estep : e2'.inst m - s'.inst m = e2.inst m - s.inst m := by rw [g1.inst, g2.inst]; omega
+  rw [g1.rep, g1.tz, estep, g1.inst] at hser'
+  have hpw := series_shift_get? m _ _ _ _ _ _ _ hser hser' (by omega)
+  have hdd : d'.exactSeconds m = d.exactSeconds m := by omega
+  subst hre hre'
+  refine ⟨_, _, s', e2', d, d', hr, hs', g1.inst, he2', g2.inst, ?_, rfl, rfl, rfl, rfl, rfl, rfl, dex, dex',
+    dsec, hdd, dur_eq_of_exact m d' d dex' dex hdd, rfl, rfl, rfl, rfl, hlen, hlen', hser, hser', hpw⟩
+  rw [shift_fmt1_eq m _ s s' e2 e2' _ _ x hs' he2', hr']
+
+example : (⟨.cal 1999 12 30, 23, 0, 0, ⟨0, 0⟩⟩ : TP).Valid .d360 ∧
+    (⟨.cal 2000 1 1, 1, 0, 0, ⟨0, 0⟩⟩ : TP).Valid .d360 ∧
+    (⟨.cal 1999 12 30, 23, 0, 0, ⟨0, 0⟩⟩ : TP).inst .d360 < (⟨.cal 2000 1 1, 1, 0, 0, ⟨0, 0⟩⟩ : TP).inst .d360 ∧
+    (Dur.units 0 0 0 0 0 3600).isExact = true := by decide +kernel
+example : (mkRec .d360 none (some ⟨.cal 1999 12 30, 23, 0, 0, ⟨0, 0⟩⟩) none
+      (some ⟨.cal 2000 1 1, 1, 0, 0, ⟨0, 0⟩⟩)).bind
+    (fun r => (r.shift .d360 (.units 0 0 0 0 0 3600)).map fun r' =>
+      ((r.dur, r'.dur, r'.reps, r'.fmt), iter .d360 r 2, iter .d360 r' 2)) =
+    some ((some (.units 0 0 0 2 0 0), some (.units 0 0 0 2 0 0), none, 1),
+      [⟨.cal 1999 12 30, 23, 0, 0, ⟨0, 0⟩⟩, ⟨.cal 2000 1 1, 1, 0, 0, ⟨0, 0⟩⟩],
+      [⟨.cal 2000 1 1, 0, 0, 0, ⟨0, 0⟩⟩, ⟨.cal 2000 1 1, 2, 0, 0, ⟨0, 0⟩⟩]) := by
+  decide +kernel
+
+/-! ## `(r + x) − x == r` in the remaining notations
+
+  As in `C14_shift_inverse`, `r − x` is `r + (-1)·x` (`TimeRecurrence.__sub__`), and `==` is
+  `TimeRecurrence.__eq__` (`Rec.eq`).  The notation is kept as well. -/
+
+/-- **(r + x) − x == r** for an exact `x` (unbounded start/duration, exact interval). -/
+theorem C14_shift_inverse_start_duration_unbounded (m : Mode) (s : TP) (d x : Dur) (hs : s.Valid m)
+    (hex : d.isExact = true) (hpos : 0 < d.exactSeconds m) (hx : x.isExact = true) :
+    ∃ r r1 r2, mkRec m none (some s) (some d) none = some r ∧ r.shift m x = some r1 ∧
+      r1.shift m (x.mul (-1)) = some r2 ∧ Rec.eq m r2 r = true ∧ r2.fmt = r.fmt := by
+  obtain ⟨s1, s2, hs1, g1, hs2, g2, hi2⟩ := addDur_neg_inst m s x hs hx
+  refine ⟨⟨none, some s, some d, none, none, 3⟩, ⟨none, some s1, some d, none, none, 3⟩,
+    ⟨none, some s2, some d, none, none, 3⟩, mkRec_fmt3_unbounded m s d hex hpos, ?_, ?_, ?_, rfl⟩
+  · rw [shift_fmt3_eq m _ s s1 d x _ _ hs1]; exact mkRec_fmt3_unbounded m s1 d hex hpos
+  · rw [shift_fmt3_eq m _ s1 s2 d _ _ _ hs2]; exact mkRec_fmt3_unbounded m s2 d hex hpos
+  · rw [C14_eq_iff m _ _ ⟨fun y h => by cases h; exact g2.strict.1, fun y h => by cases h⟩
+      ⟨fun y h => by cases h; exact hs, fun y h => by cases h⟩]
+    refine ⟨rfl, Or.inr ⟨s2, s, rfl, rfl, hi2⟩, Or.inl ⟨rfl, rfl⟩, ?_⟩
+    simp only [optDurEq]
+    exact (dur_eq_iff m d d).mpr ⟨rfl, rfl⟩
+
+example : (mkRec .greg none (some ⟨.cal 2002 5 4, 23, 0, 0, ⟨0, 0⟩⟩) (some (.units 0 0 0 1 0 0)) none).bind
+    (fun r => (r.shift .greg (.units 0 0 0 (-3) 0 0)).bind fun r1 =>
+      (r1.shift .greg ((Dur.units 0 0 0 (-3) 0 0).mul (-1))).map fun r2 => (Rec.eq .greg r2 r, decide (r2 = r))) =
+    some (true, true) := by decide +kernel
+
+/-- **(r + x) − x == r** for an exact `x` (duration/end, `n ≥ 2`, exact interval). -/
+theorem C14_shift_inverse_duration_end (m : Mode) (n : Nat) (e : TP) (d x : Dur) (hn : 2 ≤ n)
+    (he : e.Valid m) (hex : d.isExact = true) (hpos : 0 < d.exactSeconds m) (hx : x.isExact = true) :
+    ∃ r r1 r2, mkRec m (some (n : Int)) none (some d) (some e) = some r ∧ r.shift m x = some r1 ∧
+      r1.shift m (x.mul (-1)) = some r2 ∧ Rec.eq m r2 r = true ∧ r2.fmt = r.fmt := by
+  obtain ⟨e1, e2, he1, g1, he2, g2, hi2⟩ := addDur_neg_inst m e x he hx
+  obtain ⟨s0, hr, ss0, si0, _, _⟩ := mkRec_fmt4_bounded m n e d (by omega) he hex hpos
+  obtain ⟨s1, hr1, ss1, si1, _, _⟩ := mkRec_fmt4_bounded m n e1 d (by omega) g1.strict.1 hex hpos
+  obtain ⟨s2, hr2, ss2, si2, _, _⟩ := mkRec_fmt4_bounded m n e2 d (by omega) g2.strict.1 hex hpos
+  refine ⟨⟨some (n : Int), some s0, some d, some e, none, 4⟩, ⟨some (n : Int), some s1, some d, some e1, none, 4⟩,
+    ⟨some (n : Int), some s2, some d, some e2, none, 4⟩, hr, ?_, ?_, ?_, rfl⟩
+  · rw [shift_fmt4_eq m _ _ _ e e1 d x he1]; exact hr1
+  · rw [shift_fmt4_eq m _ _ _ e1 e2 d _ he2]; exact hr2
+  · rw [C14_eq_iff m _ _ ⟨fun y h => by cases h; exact ss2.1, fun y h => by cases h; exact g2.strict.1⟩
+      ⟨fun y h => by cases h; exact ss0.1, fun y h => by cases h; exact he⟩]
+    refine ⟨rfl, Or.inr ⟨s2, s0, rfl, rfl, by rw [si2, si0, hi2]⟩, Or.inr ⟨e2, e, rfl, rfl, hi2⟩, ?_⟩
+    simp only [optDurEq]
+    exact (dur_eq_iff m d d).mpr ⟨rfl, rfl⟩
+
+example : (mkRec .greg (some 3) none (some (.weeks 2)) (some ⟨.week 2004 31 2, 23, 59, 0, ⟨5, 30⟩⟩)).bind
+    (fun r => (r.shift .greg (.units 0 0 1 0 0 30)).bind fun r1 =>
+      (r1.shift .greg ((Dur.units 0 0 1 0 0 30).mul (-1))).map fun r2 => (Rec.eq .greg r2 r, decide (r2 = r))) =
+    some (true, true) := by decide +kernel
+
+/-- **(r + x) − x == r** for an exact `x` (unbounded duration/end, exact interval). -/
+theorem C14_shift_inverse_duration_end_unbounded (m : Mode) (e : TP) (d x : Dur)
+    (he : e.Valid m) (hex : d.isExact = true) (hpos : 0 < d.exactSeconds m) (hx : x.isExact = true) :
+    ∃ r r1 r2, mkRec m none none (some d) (some e) = some r ∧ r.shift m x = some r1 ∧
+      r1.shift m (x.mul (-1)) = some r2 ∧ Rec.eq m r2 r = true ∧ r2.fmt = r.fmt := by
+  obtain ⟨e1, e2, he1, g1, he2, g2, hi2⟩ := addDur_neg_inst m e x he hx
+  refine ⟨⟨none, none, some d, some e, none, 4⟩, ⟨none, none, some d, some e1, none, 4⟩,
+    ⟨none, none, some d, some e2, none, 4⟩, mkRec_fmt4_unbounded m e d hex hpos, ?_, ?_, ?_, rfl⟩
+  · rw [shift_fmt4_eq m _ _ _ e e1 d x he1]; exact mkRec_fmt4_unbounded m e1 d hex hpos
+  · rw [shift_fmt4_eq m _ _ _ e1 e2 d _ he2]; exact mkRec_fmt4_unbounded m e2 d hex hpos
+  · rw [C14_eq_iff m _ _ ⟨fun y h => (by cases h), fun y h => by cases h; exact g2.strict.1⟩
+      ⟨fun y h => (by cases h), fun y h => by cases h; exact he⟩]
+    refine ⟨rfl, Or.inl ⟨rfl, rfl⟩, Or.inr ⟨e2, e, rfl, rfl, hi2⟩, ?_⟩
+    simp only [optDurEq]
+    exact (dur_eq_iff m d d).mpr ⟨rfl, rfl⟩
+
+/-- The round trip need not give back the identical object: an end given as `24:00:00` comes back
+    as `00:00:00` of the next day — the same instant, so `==` holds. -/
+example : (mkRec .greg none none (some (.units 0 0 0 0 90 0)) (some ⟨.ord 2000 366, 24, 0, 0, ⟨-3, 0⟩⟩)).bind
+    (fun r => (r.shift .greg (.weeks (-1))).bind fun r1 =>
+      (r1.shift .greg ((Dur.weeks (-1)).mul (-1))).map fun r2 => (Rec.eq .greg r2 r, decide (r2 = r))) =
+    some (true, false) := by decide +kernel
+
+/-- **(r + x) − x == r** for an exact `x` (start/second-point, `n ≥ 2`). -/
+theorem C14_shift_inverse_start_second (m : Mode) (n : Nat) (s e2 : TP) (x : Dur) (hn : 2 ≤ n)
+    (hs : s.Valid m) (he : e2.Valid m) (hlt : s.inst m < e2.inst m) (hx : x.isExact = true) :
+    ∃ r r1 r2, mkRec m (some (n : Int)) (some s) none (some e2) = some r ∧ r.shift m x = some r1 ∧
+      r1.shift m (x.mul (-1)) = some r2 ∧ Rec.eq m r2 r = true ∧ r2.fmt = r.fmt := by
+  obtain ⟨s1, s2, hs1, gs1, hs2, gs2, his⟩ := addDur_neg_inst m s x hs hx
+  obtain ⟨f1, f2, hf1, gf1, hf2, gf2, hif⟩ := addDur_neg_inst m e2 x he hx
+  have hlt1 : s1.inst m < f1.inst m := by rw [gs1.inst, gf1.inst]; omega
+  have hlt2 : s2.inst m < f2.inst m := by rw [his, hif]; exact hlt
+  have hreps : ∀ k, some (n : Int) = some k → 2 ≤ k := fun k h => by cases h; omega
+  obtain ⟨d0, _, dex0, dsec0, _, h0⟩ := mkRec_fmt1 m (some (n : Int)) s e2 hs he hlt hreps
+  obtain ⟨d1, _, dex1, dsec1, _, h1⟩ := mkRec_fmt1 m (some (n : Int)) s1 f1 gs1.strict.1 gf1.strict.1 hlt1 hreps
+  obtain ⟨d2, _, dex2, dsec2, _, h2⟩ := mkRec_fmt1 m (some (n : Int)) s2 f2 gs2.strict.1 gf2.strict.1 hlt2 hreps
+  obtain ⟨en0, hr0, es0, ei0, _, _⟩ := h0 n rfl
+  obtain ⟨en1, hr1, es1, ei1, _, _⟩ := h1 n rfl
+  obtain ⟨en2, hr2, es2, ei2, _, _⟩ := h2 n rfl
+  refine ⟨⟨some (n : Int), some s, some d0, some en0, some e2, 1⟩,
+    ⟨some (n : Int), some s1, some d1, some en1, some f1, 1⟩,
+    ⟨some (n : Int), some s2, some d2, some en2, some f2, 1⟩, hr0, ?_, ?_, ?_, rfl⟩
+  · rw [shift_fmt1_eq m _ s s1 e2 f1 _ _ x hs1 hf1]; exact hr1
+  · rw [shift_fmt1_eq m _ s1 s2 f1 f2 _ _ _ hs2 hf2]; exact hr2
+  · rw [C14_eq_iff m _ _ ⟨fun y h => by cases h; exact gs2.strict.1, fun y h => by cases h; exact es2.1⟩
+      ⟨fun y h => by cases h; exact hs, fun y h => by cases h; exact es0.1⟩]
+    refine ⟨rfl, Or.inr ⟨s2, s, rfl, rfl, his⟩, Or.inr ⟨en2, en0, rfl, rfl, by rw [ei2, ei0, his, hif]⟩, ?_⟩
+    simp only [optDurEq]
+    exact dur_eq_of_exact m d2 d0 dex2 dex0 (by rw [dsec2, dsec0, his, hif])
+
+example : (mkRec .greg (some 4) (some ⟨.cal 2001 2 28, 12, 0, 0, ⟨1, 0⟩⟩) none
+      (some ⟨.ord 2001 60, 6, 30, 0, ⟨-2, 0⟩⟩)).bind
+    (fun r => (r.shift .greg (.units 0 0 (-1) 0 0 0)).bind fun r1 =>
+      (r1.shift .greg ((Dur.units 0 0 (-1) 0 0 0).mul (-1))).map fun r2 => (Rec.eq .greg r2 r, decide (r2 = r))) =
+    some (true, true) := by decide +kernel
+
+/-- **(r + x) − x == r** for an exact `x` (unbounded start/second-point). -/
+theorem C14_shift_inverse_start_second_unbounded (m : Mode) (s e2 : TP) (x : Dur)
+    (hs : s.Valid m) (he : e2.Valid m) (hlt : s.inst m < e2.inst m) (hx : x.isExact = true) :
+    ∃ r r1 r2, mkRec m none (some s) none (some e2) = some r ∧ r.shift m x = some r1 ∧
+      r1.shift m (x.mul (-1)) = some r2 ∧ Rec.eq m r2 r = true ∧ r2.fmt = r.fmt := by
+  obtain ⟨s1, s2, hs1, gs1, hs2, gs2, his⟩ := addDur_neg_inst m s x hs hx
+  obtain ⟨f1, f2, hf1, gf1, hf2, gf2, hif⟩ := addDur_neg_inst m e2 x he hx
+  have hlt1 : s1.inst m < f1.inst m := by rw [gs1.inst, gf1.inst]; omega
+  have hlt2 : s2.inst m < f2.inst m := by rw [his, hif]; exact hlt
+  have hreps : ∀ k, (none : Option Int) = some k → 2 ≤ k := fun k h => by cases h
+  obtain ⟨d0, _, dex0, dsec0, h0, _⟩ := mkRec_fmt1 m none s e2 hs he hlt hreps
+  obtain ⟨d1, _, dex1, dsec1, h1, _⟩ := mkRec_fmt1 m none s1 f1 gs1.strict.1 gf1.strict.1 hlt1 hreps
+  obtain ⟨d2, _, dex2, dsec2, h2, _⟩ := mkRec_fmt1 m none s2 f2 gs2.strict.1 gf2.strict.1 hlt2 hreps
+  refine ⟨⟨none, some s, some d0, none, some e2, 1⟩, ⟨none, some s1, some d1, none, some f1, 1⟩,
+    ⟨none, some s2, some d2, none, some f2, 1⟩, h0 rfl, ?_, ?_, ?_, rfl⟩
+  · rw [shift_fmt1_eq m _ s s1 e2 f1 _ _ x hs1 hf1]; exact h1 rfl
+  · rw [shift_fmt1_eq m _ s1 s2 f1 f2 _ _ _ hs2 hf2]; exact h2 rfl
+  · rw [C14_eq_iff m _ _ ⟨fun y h => by cases h; exact gs2.strict.1, fun y h => by cases h⟩
+      ⟨fun y h => by cases h; exact hs, fun y h => by cases h⟩]
+    refine ⟨rfl, Or.inr ⟨s2, s, rfl, rfl, his⟩, Or.inl ⟨rfl, rfl⟩, ?_⟩
+    simp only [optDurEq]
+    exact dur_eq_of_exact m d2 d0 dex2 dex0 (by rw [dsec2, dsec0, his, hif])
+
+example : (mkRec .d360 none (some ⟨.cal 1999 12 30, 23, 0, 0, ⟨0, 0⟩⟩) none
+      (some ⟨.cal 2000 1 1, 1, 0, 0, ⟨0, 0⟩⟩)).bind
+    (fun r => (r.shift .d360 (.units 0 0 0 0 0 3600)).bind fun r1 =>
+      (r1.shift .d360 ((Dur.units 0 0 0 0 0 3600).mul (-1))).map fun r2 => (Rec.eq .d360 r2 r, decide (r2 = r))) =
+    some (true, true) := by decide +kernel
+
+/-! ## Single-point recurrences in start/second-point notation -/
+
+/-- **A single-point start/second-point recurrence keeps its anchor when shifted.**  The
+    constructor stores `R1/start/second` as the single point `start`, and `Rn/start/second`
+    (or `R/start/second`) with `second == start` as the single point `start` too (keeping the
+    given second point).  Shifting either by an exact `x` gives the single-point recurrence at
+    `start + x`, which iterates exactly that point. -/
+theorem C14_shift_single_start_second (m : Mode) (s e2 : TP) (x : Dur) (hs : s.Valid m) (he : e2.Valid m)
+    (hx : x.isExact = true) (fuel : Nat) (hf : 1 ≤ fuel) :
+    ∃ s', addDur m s x = some s' ∧ s'.inst m = s.inst m + x.exactSeconds m ∧ s'.Valid m ∧
+      s'.date.rep = s.date.rep ∧ s'.tz = s.tz ∧
+      mkRec m (some 1) (some s) none (some e2) = some ⟨some 1, some s, none, some s, some s, 1⟩ ∧
+      (s.inst m = e2.inst m → ∀ reps : Option Int, (∀ n, reps = some n → 2 ≤ n) →
+        mkRec m reps (some s) none (some e2) = some ⟨some 1, some s, none, some e2, some e2, 1⟩) ∧
+      (⟨some 1, some s, none, some s, some s, 1⟩ : Rec).shift m x =
+        some ⟨some 1, some s', none, some s', some s', 1⟩ ∧
+      (⟨some 1, some s, none, some e2, some e2, 1⟩ : Rec).shift m x =
+        some ⟨some 1, some s', none, some s', some s', 1⟩ ∧
+      iter m ⟨some 1, some s, none, some s, some s, 1⟩ fuel = [s] ∧
+      (s.inst m = e2.inst m → iter m ⟨some 1, some s, none, some e2, some e2, 1⟩ fuel = [s]) ∧
+      iter m ⟨some 1, some s', none, some s', some s', 1⟩ fuel = [s'] := by
+  obtain ⟨s', hs', g⟩ := addDur_exact m s x hs hx
+  obtain ⟨e2', he2', _⟩ := addDur_exact m e2 x he hx
+  have hfuel : ¬ fuel = 0 := by omega
+  have hmk : ∀ (a b : TP), mkRec m (some 1) (some a) none (some b) =
+      some ⟨some 1, some a, none, some a, some a, 1⟩ := by
+    intro a b
+    unfold mkRec
+    simp only [show ¬ ((1 : Int) ≤ 0) by omega, decide_false, Bool.false_eq_true, ↓reduceIte]
+  have hit : ∀ a : TP, iter m ⟨some 1, some a, none, some a, some a, 1⟩ fuel = [a] := by
+    intro a
+    have hb : inBounds m ⟨some 1, some a, none, some a, some a, 1⟩ a = true := by
+      simp [inBounds, tpLt, tpGt, cmp]
+    unfold iter
+    simp [hfuel, hb]
+  refine ⟨s', hs', g.inst, g.strict.1, g.rep, g.tz, hmk s e2, ?_, ?_, ?_, hit s, ?_, hit s'⟩
+  · intro heq reps hreps
+    have c1 : tpEq m s e2 = true := (tpEq_iff m s e2 hs he).mpr heq
+    cases reps with
+    | none =>
+      unfold mkRec
+      simp only [Bool.false_eq_true, ↓reduceIte, reduceCtorEq, c1]
+    | some n =>
+      have h2 := hreps n rfl
+      have k1 : ¬ n ≤ 0 := by omega
+      have k2 : ¬ (n = 1) := by omega
+      unfold mkRec
+      simp only [k1, decide_false, Bool.false_eq_true, ↓reduceIte, Option.some.injEq, k2, c1]
+  · rw [shift_fmt1_eq m _ s s' s s' _ _ x hs' hs']; exact hmk s' s'
+  · rw [shift_fmt1_eq m _ s s' e2 e2' _ _ x hs' he2']; exact hmk s' e2'
+  · intro heq
+    have hb : inBounds m ⟨some 1, some s, none, some e2, some e2, 1⟩ s = true := by
+      have c2 : tpGt m s e2 = false := by
+        cases h : tpGt m s e2
+        · rfl
+        · have := (tpGt_iff m s e2 hs he).mp h; omega
+      simp [inBounds, tpLt, cmp, c2]
+    unfold iter
+    simp [hfuel, hb]
+
+example : (⟨.cal 2002 5 4, 23, 0, 0, ⟨0, 0⟩⟩ : TP).Valid .greg ∧ (⟨.cal 2002 5 5, 1, 0, 0, ⟨2, 0⟩⟩ : TP).Valid .greg ∧
+    (⟨.cal 2002 5 4, 23, 0, 0, ⟨0, 0⟩⟩ : TP).inst .greg = (⟨.cal 2002 5 5, 1, 0, 0, ⟨2, 0⟩⟩ : TP).inst .greg ∧
+    (Dur.units 0 0 0 1 0 0).isExact = true := by decide +kernel
+example : (mkRec .greg (some 5) (some ⟨.cal 2002 5 4, 23, 0, 0, ⟨0, 0⟩⟩) none
+      (some ⟨.cal 2002 5 5, 1, 0, 0, ⟨2, 0⟩⟩)).bind (fun r => r.shift .greg (.units 0 0 0 1 0 0)) =
+    some ⟨some 1, some ⟨.cal 2002 5 5, 0, 0, 0, ⟨0, 0⟩⟩, none, some ⟨.cal 2002 5 5, 0, 0, 0, ⟨0, 0⟩⟩,
+      some ⟨.cal 2002 5 5, 0, 0, 0, ⟨0, 0⟩⟩, 1⟩ := by decide +kernel
 
 end IsoDT.Props.C14
